@@ -56,3 +56,24 @@ Proof.
   destruct (o_lead o); (split; [reflexivity|]);
     destruct (pad_left_suffix (dcw o maxd) (dec q)) as (sp & E & F); exists sp; (split; [rewrite E, <- app_assoc; reflexivity|auto]).
 Qed.
+
+(* ---- fmt "%+03d" (the exponent suffix of the scientific form) ---- *)
+Require Import FormatModel.
+Lemma dec_nonempty n : dec n <> [].
+Proof.
+  unfold dec. destruct (Z.leb_spec n 0); [discriminate|]. cbn [dec_rev]. destruct (Z.leb_spec n 0); [lia|].
+  cbn [rev]. intros E. apply app_eq_nil in E. destruct E as (_ & E). discriminate.
+Qed.
+
+Theorem fmt_exp_spec e : - 10 ^ 80 < e < 10 ^ 80 ->
+  exists ds, fmt_exp e = (if e <? 0 then 45 else 43) :: ds /\ (2 <= length ds)%nat /\
+             Forall (fun c => 48 <= c <= 57) ds /\ codes_value ds = Z.abs e.
+Proof.
+  intros He. unfold fmt_exp. destruct (dec_value (Z.abs e) ltac:(lia)) as (Hv & Hd).
+  pose proof (dec_nonempty (Z.abs e)) as Hne.
+  destruct (Z.ltb_spec (Z.of_nat (length (dec (Z.abs e)))) 2) as [Hl|Hl].
+  - exists (48 :: dec (Z.abs e)). split; [reflexivity|]. split.
+    + destruct (dec (Z.abs e)); [congruence|cbn; lia].
+    + split; [constructor; [lia|exact Hd]|]. unfold codes_value in *. cbn [fold_left]. exact Hv.
+  - exists (dec (Z.abs e)). split; [reflexivity|]. split; [lia|]. split; [exact Hd|exact Hv].
+Qed.
